@@ -5,6 +5,7 @@ import (
 	"encoding/hex"
 	"encoding/json"
 	"fmt"
+	"strings"
 
 	"github.com/nyaruka/gocommon/i18n"
 	"github.com/nyaruka/gocommon/jsonx"
@@ -122,6 +123,18 @@ func CollectOutputs(out *OutputLog) func(w *World, c *Call) {
 		}
 		out.add(fmt.Sprintf("call%d/segments", c.N), string(c.Segments))
 		out.add(fmt.Sprintf("call%d/session", c.N), string(c.After))
+		// everything an expression could see after this sprint (forces every lazy value)
+		if callOK(c) {
+			if p := guarded(func() {
+				if ctx := c.Session.CurrentContext(); ctx != nil {
+					var lines []string
+					walkContext(c.Session.MergedEnvironment(), "", ctx, 0, &lines)
+					out.add(fmt.Sprintf("call%d/context", c.N), strings.Join(lines, "\n"))
+				}
+			}); p != "" {
+				out.add(fmt.Sprintf("call%d/context", c.N), "PANIC "+firstLine(p))
+			}
+		}
 	}
 }
 
